@@ -8,6 +8,7 @@
 //   c12_corr <seed> <n>
 #include <ImathMatrixAlgo.cpp>
 #include <ImathEuler.h>
+#include "c12_structured.h"
 #include <cstdint>
 #include <cstdio>
 #include <cstring>
@@ -270,34 +271,54 @@ static void caseE4 ()
 }
 
 // whole solvers (the driver loops the modelled step and applies the modelled post-passes)
-template <int n> static void caseSVD ()
+template <int n> static void runSVD (const typename MatOf<n>::M& A, T tol, const char* stat)
 {
     typedef typename MatOf<n>::M M; typedef typename MatOf<n>::V V;
-    int cls = I (0, 7);
-    M A = randMat<M> (n, cls % 6);
-    if (cls == 6) { for (int j = 0; j < n; ++j) A[n - 1][j] = A[0][j]; }                 // rank-deficient
-    if (cls == 7) { A = randMat<M> (n, 3); A[1][1] = A[0][0]; if (g () & 1) A[n - 1][n - 1] = -A[n - 1][n - 1]; } // repeated, reflection
-    T tol = TOLS[I (0, 2)];
     M U0, V0, U1, V1; V S0, S1;
     jacobiSVD (A, U0, S0, V0, tol, false);
     T dU = U0.determinant (), dV = V0.determinant ();
     jacobiSVD (A, U1, S1, V1, tol, true);
     printf ("CASE svd%d 0 %s %s %s %s => %s %s %s\n", n, hin (dU).c_str (), hin (dV).c_str (), hin (tol).c_str (), hm (A, n, true).c_str (), hm (U0, n).c_str (), hv (S0, n).c_str (), hm (V0, n).c_str ());
     printf ("CASE svd%d 1 %s %s %s %s => %s %s %s\n", n, hin (dU).c_str (), hin (dV).c_str (), hin (tol).c_str (), hm (A, n, true).c_str (), hm (U1, n).c_str (), hv (S1, n).c_str (), hm (V1, n).c_str ());
-    stats[n == 3 ? "svd3" : "svd4"] += 2;
+    stats[std::string (stat) + (n == 3 ? "3" : "4")] += 2;
     if (dU < 0 || dV < 0) stats["svd_force_flips"]++;
+    // did the solver rotate at all?  (U = V = I means "treated as already diagonal")
+    bool ident = true;
+    for (int i = 0; i < n; ++i) for (int j = 0; j < n; ++j) if (U0[i][j] != (i == j) && U0[i][j] != -(T) (i == j)) ident = false;
+    if (!ident) stats[std::string (stat) + "_rotated"]++;
 }
-template <int n> static void caseEig ()
+template <int n> static void caseSVD ()
+{
+    typedef typename MatOf<n>::M M;
+    int cls = I (0, 7);
+    M A = randMat<M> (n, cls % 6);
+    if (cls == 6) { for (int j = 0; j < n; ++j) A[n - 1][j] = A[0][j]; }                 // rank-deficient
+    if (cls == 7) { A = randMat<M> (n, 3); A[1][1] = A[0][0]; if (g () & 1) A[n - 1][n - 1] = -A[n - 1][n - 1]; } // repeated, reflection
+    runSVD<n> (A, TOLS[I (0, 2)], "svd");
+}
+template <int n> static void runEig (typename MatOf<n>::M A, T tol, const char* stat)
 {
     typedef typename MatOf<n>::M M; typedef typename MatOf<n>::V V;
-    int cls = I (0, 3);
-    M A = randMat<M> (n, cls == 0 ? 2 : cls == 1 ? 3 : cls == 2 ? 1 : 4);
-    for (int i = 0; i < n; ++i) for (int j = 0; j < i; ++j) A[i][j] = A[j][i];
-    T tol = TOLS[I (0, 2)];
     M A0 = A, Vm; V S;
     jacobiEigenSolver (A, S, Vm, tol);
     printf ("CASE eig%d %s %s => %s %s %s\n", n, hin (tol).c_str (), hm (A0, n, true).c_str (), hm (A, n).c_str (), hv (S, n).c_str (), hm (Vm, n).c_str ());
-    stats[n == 3 ? "eig3" : "eig4"]++;
+    stats[std::string (stat) + (n == 3 ? "3" : "4")]++;
+}
+template <int n> static void caseEig ()
+{
+    typedef typename MatOf<n>::M M;
+    int cls = I (0, 3);
+    M A = randMat<M> (n, cls == 0 ? 2 : cls == 1 ? 3 : cls == 2 ? 1 : 4);
+    for (int i = 0; i < n; ++i) for (int j = 0; j < i; ++j) A[i][j] = A[j][i];
+    runEig<n> (A, TOLS[I (0, 2)], "eig");
+}
+// deterministic structured sparse matrices (c12_structured.h), every tier
+template <int n> static void structuredCases ()
+{
+    typedef typename MatOf<n>::M M;
+    const T eps = 2.220446049250313e-16;
+    for (auto& nm : c12Structured<M, T, n> (false)) runSVD<n> (nm.second, eps, "svd_structured");
+    for (auto& nm : c12Structured<M, T, n> (true)) { runEig<n> (nm.second, eps, "eig_structured"); runSVD<n> (nm.second, eps, "svd_structured"); }
 }
 static void caseIdx ()
 {
@@ -330,6 +351,7 @@ int main (int argc, char** argv)
     g.seed (seed * 2654435761ul + 12);
     // fixed witnesses first: the 3-4-5 rotation with translation (3, 4)
     { Matrix33<T> w (0.8, 0.6, 0, -0.6, 0.8, 0, 3, 4, 1); caseEar33 (w); }
+    structuredCases<3> (); structuredCases<4> ();
     for (int i = 0; i < n; ++i)
     {
         caseEar44 (gen44 (i % 6));
